@@ -106,3 +106,43 @@ Theorem C19_consts_ok :
   C19_QuotaBytesPerMegabyte = 2 ^ 20 /\ C19_QuotaHoursPerDay * C19_HourNs = C19_DayNs.
 Proof. exact consts_ok. Qed.
 Print Assumptions C19_consts_ok.
+
+(* the validator's bound (regenerated from the real ValidateServerConfigSingleUser) lies inside the range where the
+   window arithmetic does not wrap *)
+Theorem C19_max_quota_days_ok : 0 < C19_MaxQuotaDays <= max_days.
+Proof. exact max_quota_days_ok. Qed.
+Print Assumptions C19_max_quota_days_ok.
+
+(* every user record that passes validation: checkQuota never panics, for every counter state and every instant *)
+Theorem C19_validated_quota_never_panics : forall pol u m now,
+  (forall p, pol = Some p -> validate_user_quotas (p_quotas p) = true) ->
+  check_quota pol u m now <> QPanic.
+Proof. exact validated_quota_never_panics. Qed.
+Print Assumptions C19_validated_quota_never_panics.
+
+(* the refusal criterion, with the validator as the premise *)
+Theorem C19_quota_refuse_iff_validated : forall pol u m now,
+  (forall p, pol = Some p -> validate_user_quotas (p_quotas p) = true) ->
+  (refused (check_quota pol u m now) = true <->
+   exists p up down q, pol = Some p /\ p_name p = u /\ lookup u m = Some (up, down) /\
+                       In q (p_quotas p) /\ exceeded q up down now).
+Proof. exact quota_refuse_iff_validated. Qed.
+Print Assumptions C19_quota_refuse_iff_validated.
+
+(* before the fix (no upper bound on days) a record could make checkQuota panic: such records are now rejected *)
+Theorem C19_unvalidated_days_overflow_refuted_before_fix :
+  exists p u m now, validate_user_quotas (p_quotas p) = false /\ check_quota (Some p) u m now = QPanic.
+Proof. exact unvalidated_days_overflow. Qed.
+Print Assumptions C19_unvalidated_days_overflow_refuted_before_fix.
+
+(* on a history ordered in time DeltaBetween(t1, t2) is exactly the sum of the deltas with t1 < ts <= t2 *)
+Theorem C19_window_is_range_sum : forall h t1 t2, sorted h -> t1 <= t2 ->
+  delta_between h t1 t2 = hsum (filter (in_window t1 t2) h).
+Proof. exact window_is_range_sum. Qed.
+Print Assumptions C19_window_is_range_sum.
+
+(* ... and the order is needed: the binary searches of DeltaBetween miss entries of an unordered history *)
+Theorem C19_window_is_range_sum_unsorted_refuted :
+  exists h t1 t2, t1 <= t2 /\ delta_between h t1 t2 <> hsum (filter (in_window t1 t2) h).
+Proof. exact window_unsorted_differs. Qed.
+Print Assumptions C19_window_is_range_sum_unsorted_refuted.
